@@ -115,7 +115,12 @@ func (iq *IndexQuery) FetchCollection(db *badger.DB) ([]string, error) {
 		opts.Reverse = iq.Reverse
 		it := txn.NewIterator(opts)
 		defer it.Close()
-		for it.Seek(queryPrefix); it.ValidForPrefix(queryPrefix); it.Next() {
+		// In reverse, seek to the end of the keys having the prefix
+		seekKey := queryPrefix
+		if iq.Reverse {
+			seekKey = append(append(make([]byte, 0, qplen+1), queryPrefix...), 0xFF)
+		}
+		for it.Seek(seekKey); it.ValidForPrefix(queryPrefix); it.Next() {
 			k := it.Item().Key()
 			idx := bytes.LastIndexByte(k, idSeparator)
 			if idx < 0 {
